@@ -11,13 +11,13 @@ Zones == IF Tier = "quick" THEN {"0", "neg0", "m330"} ELSE {"0", "neg0", "p60", 
 MaxTags == IF Tier = "quick" THEN {0, 2} ELSE 0..2
 Parents == IF Tier = "quick" THEN {0, 2} ELSE 0..2
 Extras == IF Tier = "quick" THEN {<<>>, <<"hgrename", "hgextra">>, <<"unknown">>, <<"hgbad">>}
-          ELSE {<<>>, <<"hgrename">>, <<"hgextra">>, <<"hgrename", "hgextra">>, <<"hgextra", "hgrename">>,
-                <<"unknown">>, <<"hgrename", "unknown">>, <<"hgbad">>}
+          ELSE {<<>>, <<"hgrename", "hgextra">>, <<"hgextra", "hgrename">>, <<"unknown">>, <<"hgrename", "unknown">>, <<"hgbad">>}
 Product == [enc : Encs, tb : TextBytes, ident : {"same", "diff"}, teq : BOOLEAN, atz : Zones, ctz : Zones,
             gpg : BOOLEAN, mt : MaxTags, extra : Extras, msg : Msgs, par : Parents]
 \* quick: three independent one-condition fields (gpgsig, mergetags, parents) move together
 Cases == IF Tier = "quick" THEN {x \in Product : x.mt = (IF x.gpg THEN 2 ELSE 0) /\ x.par = x.mt}
-         ELSE {x \in Product : x.par = x.mt}          \* full: only parents and mergetags move together
+         \* full: parents and mergetags move together; +0100 only as author zone
+         ELSE {x \in Product : x.par = x.mt /\ x.ctz # "p60"}
 VARIABLE c
 Init == c \in Cases
 Next == UNCHANGED c
